@@ -56,6 +56,10 @@ func genRewriteValue(g *Gen) string {
 	case 8:
 		return "NOERROR;" + Pick(g, []string{"PTR", "ptr"}) + ";" + Pick(g, hosts)
 	case 9:
+		if g.Chance(1, 4) {
+			// length boundaries of a TXT character-string (255) and beyond
+			return "NOERROR;TXT;" + strings.Repeat(Pick(g, []string{"a", "xy ", "v=spf1 "}), 1000)[:Pick(g, []int{36, 200, 254, 255, 256, 257, 300, 510, 511, 1000})]
+		}
 		return "NOERROR;TXT;" + Pick(g, []string{"hello", "", "a;b;c", "with space", "v=spf1 -all", "x\\,y"})
 	case 10:
 		// wrong number of delimiters
